@@ -12,7 +12,9 @@
       "none"      no evidence
       "own"       the evidence computed from the weights of the *original* rows
                   (a weighted Samples object) - selection must carry it, not recompute it
-      "attached"  a value attached from outside (SMC result)
+      "attached"  a value attached from outside (SMC result, or a weighted set constructed with
+                  an explicit evidence); "attached0" is the same with the value 0.0 exactly
+                  (a normalised target: log Z = 0 is a value, not "no evidence")
    The effect of every operation below *is* the property (C16, C15): the
    same selection of every field, partition restores, codecs are identities
    in the same namespace, conversions keep rows, fields, width.
@@ -33,12 +35,13 @@ CONSTANTS NRows,       \* rows of the initial object (ids 1..NRows)
 FieldSets == SUBSET {"ll", "lp", "lq"}
 AllFields == {"ll", "lp", "lq"}
 
-InitObj(c, ns, w, fs) ==
-  [cls |-> c, ns |-> ns, width |-> w, fields |-> fs, rows |-> [i \in 1..NRows |-> i],
-   ev |-> IF c = "Samples" /\ fs = AllFields THEN "own" ELSE IF c = "SMC" THEN "attached" ELSE "none",
-   oned |-> FALSE]
+InitObj(c, ns, w, fs, ev) ==
+  [cls |-> c, ns |-> ns, width |-> w, fields |-> fs, rows |-> [i \in 1..NRows |-> i], ev |-> ev, oned |-> FALSE]
 
-Inits == {InitObj(c, ns, w, fs) : c \in Classes, ns \in Namespaces, w \in Widths, fs \in FieldSets}
+EvChoices(c, fs) == IF c = "Samples" /\ fs = AllFields THEN {"own", "attached", "attached0"}
+                    ELSE IF c = "SMC" THEN {"attached", "attached0"} ELSE {"none"}
+Inits == UNION {{InitObj(c, ns, w, fs, ev) : ev \in EvChoices(c, fs)} :
+                  c \in Classes, ns \in Namespaces, w \in Widths, fs \in FieldSets}
 
 (* ---- selectors (0-based indices, Python semantics) ------------------- *)
 RECURSIVE UpTo(_, _, _)
@@ -99,7 +102,7 @@ Ops(o, few) ==
               \* from_samples is a (possibly class-changing) constructor from the four array fields:
               \* evidence that is derivable is reproduced, evidence attached from outside is not compared
               res |-> [o EXCEPT !.ns = t, !.width = IF d = 0 THEN o.width ELSE d,
-                                !.ev = IF o.ev = "own" THEN "own" ELSE "none"]] :
+                                !.ev = IF o.ev = "own" /\ o.cls = "Samples" THEN "own" ELSE "none"]] :
                 t \in {"numpy", "torch", "jax"}, d \in {0, 32, 64}}
        \cup (IF few THEN {} ELSE {[op |-> "pickle", res |-> o]})
 
